@@ -193,9 +193,9 @@ def execT (t : Tid) (mi : MI) (s : St) : St :=
   | .unregister f => logAcc { s with patches := upd s.patches f none } t .patches true
   | .register f r =>
     -- jumpdata.go:64 checkAndReadOriginBytes: RawRead under the read lock; NOP sentinel = already patched (error)
-    let s := logAcc (logAcc s t .patches true) t .text false
-    let s := if s.text f = .pristine then s else { s with faults := (t, f) :: s.faults }
-    { s with patches := upd s.patches f (some { repl := r, originBytes := s.text f, applied := false }) }
+    let s1 := logAcc (logAcc s t .patches true) t .text false
+    { s1 with patches := upd s.patches f (some { repl := r, originBytes := s.text f, applied := false }),
+              faults := if s.text f = .pristine then s1.faults else (t, f) :: s1.faults }
   | .setApplied f =>
     let s := logAcc s t .patches true
     match s.patches f with
